@@ -242,6 +242,37 @@ func (la *LockAnalysis) entryFromCallers(fn *ssa.Function) (LockSet, bool) {
 			}
 		}
 	}
+	// named functions and method expressions handed over as function values (`readLive(id, (*session).tokens)`):
+	// invoked where the parameter they are bound to is called
+	for f := range la.fns {
+		for _, u := range allCalls(f) {
+			callee := u.Common().StaticCallee()
+			for i, a := range u.Common().Args {
+				if funcValueTarget(a) != fn {
+					continue
+				}
+				if callee == nil || i >= len(callee.Params) {
+					return LockSet{}, true
+				}
+				p := callee.Params[i]
+				found := false
+				if prs := p.Referrers(); prs != nil {
+					for _, pr := range *prs {
+						if pc, isC := pr.(ssa.CallInstruction); isC && pc.Common().Value == p {
+							if _, isGo := pc.(*ssa.Go); isGo {
+								return LockSet{}, true
+							}
+							sites = append(sites, pc)
+							found = true
+						}
+					}
+				}
+				if !found {
+					return LockSet{}, true
+				}
+			}
+		}
+	}
 	if len(sites) == 0 {
 		return LockSet{}, true
 	}
@@ -392,4 +423,28 @@ func lockFor(ls LockSet, write bool) LockSet {
 		out[k] = true
 	}
 	return out
+}
+
+// funcValueTarget: v is a function constant used as a value — the function itself, or the synthetic
+// thunk/bound-method wrapper of a method expression, whose body only forwards to the method.
+func funcValueTarget(v ssa.Value) *ssa.Function {
+	f, ok := stripConv(v).(*ssa.Function)
+	if !ok {
+		return nil
+	}
+	if f.Synthetic == "" || f.Blocks == nil {
+		return f
+	}
+	var target *ssa.Function
+	n := 0
+	for _, ci := range allCalls(f) {
+		if callee := ci.Common().StaticCallee(); callee != nil {
+			target = callee
+			n++
+		}
+	}
+	if n == 1 {
+		return target
+	}
+	return f
 }
